@@ -53,7 +53,10 @@ def gen_case(rnd, tier: str, i: Any) -> Dict[str, Any]:
 
 def fixed_cases(tier: str):
     from hv import samples
-    return [dict(c, cfg={"inc_last": m, "mp": False}) for c in samples.sample_cases(tier) for m in (False, True)]
+    out = [dict(c, cfg={"inc_last": m, "mp": False}) for c in samples.sample_cases(tier) for m in (False, True)]
+    if tier == "thorough":
+        out = out + [{"files": {"rank0.json": gen_sim.huge_trace(22)}, "cfg": {"inc_last": False, "mp": False}, "time_unit": 1}]          # row ids beyond int16
+    return out
 
 
 def run_case(case: Dict[str, Any], ctx: Any) -> core.CaseResult:
